@@ -501,6 +501,10 @@ func (m *matcher) match(n *node, got reflect.Value, path string) {
 		m.mapOf(n, got, path, m.ptrS)
 	case kSliceSliceBin:
 		m.sliceOf(n, got, path, func(k *node, g reflect.Value, p string) { m.sliceOf(k, g, p, m.bin) })
+	case kMapMapAny, kMapSliceAny:
+		m.mapOf(n, got, path, m.match)
+	case kSliceMapAny:
+		m.sliceOf(n, got, path, m.match)
 	case kT, kPtrT:
 		if n.K == kPtrT {
 			if got.IsNil() {
